@@ -183,6 +183,8 @@ func kindsOf(changes []schema.Change) []string {
 }
 
 func checkCase(c Case) (Outcome, error) {
+	model.SettleShortFKs(&c.A, &c.B)
+	model.SettleShortFKs(&c.B, &c.A)
 	var out Outcome
 	ctx := context.Background()
 	db, err := eng.New(ctx)
